@@ -8,7 +8,10 @@ EXTENDS CacheOps
 B(x) == x = 1                       \* JSON 0/1 -> BOOLEAN
 Fl(e) == <<B(e.a.fx), B(e.a.ft)>>  \* flags: expire_time=, tag=
 
+PolicyId(p) == CASE p = "lrs" -> 1 [] p = "lru" -> 2 [] p = "lfu" -> 3 [] OTHER -> 0
+
 \* the operation proper
+RECURSIVE Dispatch(_, _)
 Dispatch(St, e) ==
     CASE e.op = "set"      -> Set(St, e.a.k, e.a.v, e.a.sz, e.a.ttl, e.a.tag, e.now)
       [] e.op = "add"      -> Add(St, e.a.k, e.a.v, e.a.sz, e.a.ttl, e.a.tag, e.now)
@@ -30,6 +33,13 @@ Dispatch(St, e) ==
       [] e.op = "stats"    -> Stats(St, B(e.a.en), B(e.a.rs))
       [] e.op = "tick"     -> Res(St, RNone, FALSE)
       [] e.op = "close"    -> Res(St, RNone, FALSE)      \* closing a handle changes nothing
+      \* C18: reopening, pickling, forking, another thread or process change nothing by themselves; an operation
+      \* performed through any other handle is the same step on the one directory state
+      [] e.op = "pickle" -> Res(St, RNone, FALSE)
+      \* reopening WITH settings applies them again (statistics goes back to the value given at creation)
+      [] e.op = "reopen" -> Res(IF e.a.args = 1 THEN [St EXCEPT !.stats = B(e.a.stats0)] ELSE St, RNone, FALSE)
+      [] e.op = "via"      -> Dispatch(St, [op |-> e.a.inner.op, a |-> e.a.inner.a, now |-> e.now])
+      [] e.op = "settings" -> Res(St, R("settings", <<PolicyId(St.policy), St.cull, St.limit, IF St.stats THEN 1 ELSE 0>>), FALSE)
       [] OTHER             -> Res(St, R("unknown-op", <<>>), FALSE)
 
 =============================================================================
